@@ -1153,6 +1153,28 @@ where
                 })
                 .collect();
 
+            // Match native `open_input`: the batch is opened at `index >> bits_reduced`, where
+            // `bits_reduced` is the gap between the global max height and this batch's tallest
+            // matrix. The index bits are little-endian, so that is the suffix of the bit list.
+            let log_batch_max_height = mats
+                .iter()
+                .map(|(domain, _)| domain.log_size() + log_blowup)
+                .max()
+                .ok_or_else(|| {
+                    VerificationError::InvalidProofShape(format!(
+                        "Batch {batch_idx} has no matrices to open"
+                    ))
+                })?;
+            let bits_reduced = log_global_max_height
+                .checked_sub(log_batch_max_height)
+                .filter(|&r| r <= index_bits.len())
+                .ok_or_else(|| {
+                    VerificationError::InvalidProofShape(format!(
+                        "Batch {batch_idx} is taller than the global max height"
+                    ))
+                })?;
+            let batch_index_bits = &index_bits[bits_reduced..];
+
             // Hiding MMCS appends a per-matrix salt to each leaf; non-hiding passes `None`.
             let batch_salt = batch_salts.get(batch_idx);
             let salts_for_batch = match batch_salt {
@@ -1166,7 +1188,7 @@ where
                     perm_config,
                     &commitment_cap,
                     &dimensions,
-                    index_bits,
+                    batch_index_bits,
                     batch_openings,
                 )
             } else {
@@ -1175,7 +1197,7 @@ where
                     perm_config,
                     &commitment_cap,
                     &dimensions,
-                    index_bits,
+                    batch_index_bits,
                     batch_openings,
                     salts_for_batch,
                 )
